@@ -68,7 +68,10 @@ def register_masks(reg):
                      ('union-of-input-coverage-and-invalid-masks',
                       'forall(lambda j, i: iff(result[j, i], '
                       + ' or '.join(terms).replace('old_mask_[j, i]', 'old_self._mask[j, i]')
-                      + '), (0, mask.shape[0]), (0, mask.shape[1]))')],
+                      + '), (0, mask.shape[0]), (0, mask.shape[1]))')]
+            + ([('coverage-mask-left-as-given',
+                 'forall(lambda j, i: iff(self.coverage_mask[j, i], old_self.coverage_mask[j, i]), '
+                 '(0, mask.shape[0]), (0, mask.shape[1]))')] if cspec == img else []),
             mutants=([('total_mask = np.logical_or(input_mask, mask)',
                        'total_mask = np.logical_and(input_mask, mask)'),
                       ('total_mask = np.logical_or(input_mask, mask)', 'total_mask = input_mask')]
